@@ -211,6 +211,20 @@ def gen_names(rng, n, hostile=False):
     seen = set()
     out = []
     while len(out) < n:
+        if out and rng.chance(0.08):
+            # a near-collision: same name but for one non-letter character and its counterpart 0x20 away
+            # ([ and {, \ and |, ] and }, ^ and ~, @ and `): DFS folds the case of letters only
+            d0, n0 = rng.choice(out)
+            pos = rng.below(len(n0))
+            a, b = rng.choice([(0x5B, 0x7B), (0x5C, 0x7C), (0x5D, 0x7D), (0x5E, 0x7E), (0x40, 0x60)])
+            first = n0[:pos] + bytes([a]) + n0[pos + 1:]
+            second = n0[:pos] + bytes([b]) + n0[pos + 1:]
+            for cand in (first, second):
+                key = (chr(d0).upper(), cand.upper())
+                if key not in seen and len(out) < n:
+                    seen.add(key)
+                    out.append((d0, cand))
+            continue
         ln = rng.weighted([(3, 7), (2, 1), (6, rng.randint(2, 6))])
         name = bytes(rng.choice(NAME_CHARS) for _ in range(ln))
         d = rng.choice(DIR_CHARS) if rng.chance(0.4) else ord('$')
@@ -316,6 +330,21 @@ def gen_surface(rng, variant=None, img_id=1, side=0, geom=None, density=None):
         nvol = min(nvol, tracks - 1)
         # volume start tracks: increasing, first at track 1
         cuts = sorted(rng.sample(range(2, tracks), nvol - 1)) if nvol > 1 else []
+        if nvol > 1 and rng.chance(0.35):
+            # a volume of exactly one track (the legal minimum): make two neighbouring boundaries adjacent
+            k = rng.below(len(cuts))
+            want = cuts[k] + 1 if cuts[k] + 1 < tracks else cuts[k] - 1
+            if k + 1 < len(cuts):
+                if want not in cuts and 2 <= want < tracks:
+                    cuts[k + 1] = want
+                    cuts = sorted(set(cuts))
+            elif cuts[k] != tracks - 1 and (tracks - 1) not in cuts:
+                cuts[k] = tracks - 1
+                cuts = sorted(set(cuts))
+            elif k == 0 and 2 not in cuts:
+                cuts[0] = 2
+                cuts = sorted(set(cuts))
+            nvol = len(cuts) + 1
         starts = [1] + cuts
         ends = cuts + [tracks]
         vols = []
